@@ -4,7 +4,7 @@ import Vflow.Gen.MirrorFacts
 /-!
 # C16 — mirrored datagrams reach the third-party collector unchanged
 
-`assembleFrom sport max src dst port payload` is one iteration of `mirrorIPFIX` (`sport` = 55117) /
+`assembleFrom sport max src dst port payload` is the first iteration, `mirrorSeq … msgs` a whole life, of `mirrorIPFIX` (`sport` = 55117) /
 `mirrorSFlow` (55118) for an IPv4 target, as the code is after the `fix:` commit for F13.
 The theorems quantify over every payload, every maximum, every IPv4 source in 4-octet or IPv4-mapped
 16-octet form, every IPv4 target (either form) and every port.
@@ -17,20 +17,27 @@ checksum 0 (= none, legal over IPv4); the model has them as they are and nothing
 namespace Vflow.C16
 open Vflow Vflow.Mirror
 
-/-- the 16-octet IPv4-mapped form `::ffff:a.b.c.d` of a 4-octet address (what `net.ParseIP` and a
-dual-stack socket deliver) -/
-def mapped (a : Bytes) : Bytes := List.replicate 10 0 ++ [0xff, 0xff] ++ a
-
-/-- `ip` is the IPv4 address `a` in 4-octet or in 16-octet form -/
-def IsV4 (ip a : Bytes) : Prop := a.length = 4 ∧ (ip = a ∨ ip = mapped a)
-
-theorem to4_isV4 {ip a : Bytes} (h : IsV4 ip a) : to4 ip = some a := by
-  obtain ⟨h4, h | h⟩ := h
-  · subst h; simp [to4, h4]
-  · obtain ⟨a, b, c, d, rfl⟩ := len4 a h4
-    subst h
-    simp [to4, mapped]
-
+/-- **C16 (every datagram of a worker's life)**: a worker started for an IPv4 target sends, for every
+message of any sequence (each with an IPv4 source in either form and a payload of at most `max` octets),
+exactly the RFC 791 / RFC 768 datagram of *that* message — nothing of earlier messages survives in the
+reused header and packet buffers — and never panics -/
+theorem mirrorSeq_spec (sport m : Nat) (dst dst4 : Bytes) (port : Nat) (msgs : List (Bytes × Bytes))
+    (hd : IsV4 dst dst4) (hsp : sport < 65536) (hp : port < 65536)
+    (hv : ∀ x ∈ msgs, IsV4 x.1 (v4of x.1) ∧ x.2.length ≤ m ∧ 28 + x.2.length ≤ 65535) :
+    mirrorSeq sport (m : Int) dst port msgs =
+      .ok (msgs.map (fun x => ipv4udp (v4of x.1) dst4 sport port x.2)) := by
+  obtain ⟨w, hi, hw⟩ := init_ready sport m dst dst4 port hd hsp hp
+  simp only [mirrorSeq, hi, ok_bind]
+  clear hi
+  induction msgs generalizing w with
+  | nil => rfl
+  | cons x rest ih =>
+    obtain ⟨src, payload⟩ := x
+    have hx := hv (src, payload) (by simp)
+    obtain ⟨w', hstep, hw'⟩ := step_spec sport port m w src dst (v4of src) dst4 payload hw hx.1 hd hx.2.1 hx.2.2
+    simp only [Worker.run, hstep, ok_bind, List.map_cons]
+    rw [ih (fun y hy => hv y (by simp [hy])) w' hw']
+    rfl
 
 /-- **C16 (layout)**: the octets handed to `Send` are exactly the RFC 791 / RFC 768 datagram with the
 exporter as source, the configured target and port, total length `28 + n`, UDP length `8 + n` and the
@@ -39,71 +46,11 @@ theorem assembleFrom_eq (sport : Nat) (max : Int) (src dst src4 dst4 : Bytes) (p
     (hs : IsV4 src src4) (hd : IsV4 dst dst4) (hmax : (payload.length : Int) ≤ max)
     (hlen : 28 + payload.length ≤ 65535) (hsp : sport < 65536) (hp : port < 65536) :
     assembleFrom sport max src dst port payload = .ok (ipv4udp src4 dst4 sport port payload) := by
-  have hs4 := to4_isV4 hs
-  have hd4 := to4_isV4 hd
-  obtain ⟨s0, s1, s2, s3, rfl⟩ := len4 src4 hs.1
-  obtain ⟨d0, d1, d2, d3, rfl⟩ := len4 dst4 hd.1
   have hmax0 : 0 ≤ max := by omega
   obtain ⟨m, rfl⟩ := Int.eq_ofNat_of_zero_le hmax0
-  have hm : payload.length ≤ m := by omega
-  unfold assembleFrom
-  have hmk : makeBytes ((bufExtra : Nat) + (m : Int)) = .ok (List.replicate (48 + m) 0) := by
-    simp only [makeBytes, bufExtra, ipv6HLen, udpHLen]
-    have : ¬ ((((40 + 8 : Nat) : Int)) + (m : Int) < 0) := by omega
-    simp only [this, ↓reduceIte]
-    congr 2
-  simp only [hmk, ok_bind, udpMarshal_val, hd4, Option.isNone_some, Bool.false_eq_true, ↓reduceIte,
-    ipv4Tpl_val, udpProto, setAddrs_val s0 s1 s2 s3 d0 d1 d2 d3 src dst hs4 hd4]
-  have hT : (ipv4HLen + (payload.length + udpHLen) % 65536) % 65536 = 28 + payload.length := by
-    simp only [ipv4HLen, udpHLen]; omega
-  have hU : (udpHLen + payload.length) % 65536 = 8 + payload.length := by
-    simp only [udpHLen]; omega
-  have hsl : setLen4 [69, 0, 0, 0, 0, 0, 0, 0, 64, 17, 0, 0, s0, s1, s2, s3, d0, d1, d2, d3] (payload.length + udpHLen)
-      = .ok ([69, 0] ++ encBE 2 (28 + payload.length) ++ [0, 0, 0, 0, 64, 17, 0, 0, s0, s1, s2, s3, d0, d1, d2, d3]) := by
-    simp [setLen4, putU16, hT]
-  have hul : udpSetLen (encBE 2 (sport % 65536) ++ encBE 2 (port % 65536) ++ [0, 8, 0, 0]) payload.length
-      = .ok (encBE 2 sport ++ encBE 2 port ++ encBE 2 (8 + payload.length) ++ [0, 0]) := by
-    simp [udpSetLen, putU16, hU, encBE_two, Nat.mod_eq_of_lt hsp, Nat.mod_eq_of_lt hp]
-  simp only [hsl, hul, ok_bind]
-  generalize hH : ([69, 0] ++ encBE 2 (28 + payload.length) ++
-      [0, 0, 0, 0, 64, 17, 0, 0, s0, s1, s2, s3, d0, d1, d2, d3] : Bytes) = H
-  generalize hUh : (encBE 2 sport ++ encBE 2 port ++ encBE 2 (8 + payload.length) ++ [0, 0] : Bytes) = U
-  have hHl : H.length = 20 := by subst hH; simp [encBE_two]
-  have hUl : U.length = 8 := by subst hUh; simp [encBE_two]
-  have c1 : copyInto (List.replicate (48 + m) 0) 0 ipv4HLen H = .ok (H ++ List.replicate (28 + m) 0) := by
-    have := copyInto_at [] (List.replicate (48 + m) 0) H 0 20 rfl (by omega) (by simp; omega)
-    simp only [List.nil_append, Nat.sub_zero] at this
-    rw [ipv4HLen, this, List.take_of_length_le (by omega), hHl, List.drop_replicate]
-    congr 3; omega
-  have c2 : copyInto (H ++ List.replicate (28 + m) 0) ipv4HLen (ipv4HLen + 8) U
-      = .ok ((H ++ U) ++ List.replicate (20 + m) 0) := by
-    have := copyInto_at H (List.replicate (28 + m) 0) U 20 28 hHl (by omega) (by simp; omega)
-    rw [ipv4HLen, this, List.take_of_length_le (by omega), hUl, List.drop_replicate]
-    congr 3; omega
-  have c3 : copyInto ((H ++ U) ++ List.replicate (20 + m) 0) (ipv4HLen + 8)
-      ((H ++ U) ++ List.replicate (20 + m) 0).length payload
-      = .ok (((H ++ U) ++ payload) ++ List.replicate (20 + m - payload.length) 0) := by
-    have hl : ((H ++ U) ++ List.replicate (20 + m) 0).length = 48 + m := by simp [hHl, hUl]; omega
-    have := copyInto_at (H ++ U) (List.replicate (20 + m) 0) payload 28 (48 + m) (by simp [hHl, hUl]) (by omega) (by simp; omega)
-    rw [hl, ipv4HLen, this, List.take_of_length_le (by omega), List.drop_replicate]
-  rw [c1]; simp only [ok_bind]
-  rw [c2]; simp only [ok_bind]
-  rw [c3]; simp only [ok_bind]
-  have hb : ¬ ((m : Int) < 0 ∨ bodyCap (m : Int) payload.length < (m : Int)) := by
-    unfold bodyCap
-    split <;> omega
-  simp only [hb, ↓reduceIte]
-  unfold slice
-  have hsl2 : 0 ≤ ipv4HLen + 8 + payload.length ∧ ipv4HLen + 8 + payload.length ≤
-      (((H ++ U) ++ payload) ++ List.replicate (20 + m - payload.length) 0).length := by
-    simp [hHl, hUl, ipv4HLen]; omega
-  simp only [hsl2, and_self, ↓reduceIte, List.drop_zero, Nat.sub_zero]
-  have htk : ipv4HLen + 8 + payload.length = ((H ++ U) ++ payload).length := by simp [hHl, hUl, ipv4HLen]; omega
-  rw [htk, List.take_left']
-  · subst hH; subst hUh
-    simp [ipv4udp, encBE_two]
-  · rfl
-
+  obtain ⟨w, hi, hw⟩ := init_ready sport m dst dst4 port hd hsp hp
+  obtain ⟨w', hstep, _⟩ := step_spec sport port m w src dst src4 dst4 payload hw hs hd (by omega) hlen
+  simp [assembleFrom, hi, hstep]
 
 /-- the receiver's view of a well-formed datagram -/
 theorem parse4_ipv4udp (src4 dst4 : Bytes) (sport dport : Nat) (payload : Bytes)
@@ -166,13 +113,59 @@ would get total length 0 -/
 theorem total_length_wraps :
     setLen4 (List.replicate 20 0) (65508 + 8) = .ok (List.replicate 20 0) := by decide
 
+/-- non-vacuity of `mirrorSeq_spec`: a long datagram from a 16-octet source followed by a short one from
+a 4-octet source through the same worker; the second packet carries nothing of the first -/
+example : mirrorSeq 55118 4 (mapped [127, 0, 0, 9]) 9 [(mapped [10, 0, 0, 1], [1, 2, 3, 4]), ([10, 0, 0, 2], [5])] =
+    .ok [ipv4udp [10, 0, 0, 1] [127, 0, 0, 9] 55118 9 [1, 2, 3, 4], ipv4udp [10, 0, 0, 2] [127, 0, 0, 9] 55118 9 [5]] := by
+  decide
+
+/-! ## F13: the code before the `fix:` commit -/
+
+/-- `IPv4.SetAddrs` before the fix: `copy(b[12:16], src[12:16]); copy(b[16:20], dst[12:16])` -/
+def setAddrsUnrepaired (b src dst : Bytes) : Res Bytes := do
+  let s ← slice src 12 16
+  let b ← copyInto b 12 16 s
+  let d ← slice dst 12 16
+  copyInto b 16 20 d
+
+/-- the first message of a fresh worker before the fix: `packet = make([]byte, max)` -/
+def assembleUnrepaired (sport : Nat) (max : Int) (src dst : Bytes) (port : Nat) (payload : Bytes) : Res Bytes := do
+  let packet ← makeBytes max
+  let udpHdr ← udpMarshal sport port
+  if (to4 dst).isNone then .v6 else
+  let ipHdr ← ipv4Tpl udpProto
+  let ipHdr ← setAddrsUnrepaired ipHdr src dst
+  let ipHdr ← setLen4 ipHdr (payload.length + udpHLen)
+  let udpHdr ← udpSetLen udpHdr payload.length
+  let packet ← copyInto packet 0 ipv4HLen ipHdr
+  let packet ← copyInto packet ipv4HLen (ipv4HLen + 8) udpHdr
+  let packet ← copyInto packet (ipv4HLen + 8) packet.length payload
+  slice packet 0 (ipv4HLen + 8 + payload.length)
+
+def isPanic {α : Type} : Res α → Bool
+  | .panic _ => true
+  | _ => false
+
+/-- F13 (a): before the fix a payload of `max − 27` octets (37 with `max` = 64) panics in
+`packet[0:ipHLen+8+pLen]`; the repaired model sends it (corpus/C16/mirror-f13.txt, replayed on the code) -/
+theorem f13_buffer_counterexample :
+    isPanic (assembleUnrepaired 55117 64 (mapped [192, 168, 1, 1]) (mapped [127, 0, 0, 1]) 4172 (List.replicate 37 7)) = true ∧
+    isPanic (assembleFrom 55117 64 (mapped [192, 168, 1, 1]) (mapped [127, 0, 0, 1]) 4172 (List.replicate 37 7)) = false := by
+  decide
+
+/-- F13 (b): before the fix a 4-octet source address panics in `src[12:16]` -/
+theorem f13_source_counterexample :
+    isPanic (assembleUnrepaired 55117 64 [192, 168, 1, 1] (mapped [127, 0, 0, 1]) 4172 [104, 101, 108, 108, 111]) = true ∧
+    isPanic (assembleFrom 55117 64 [192, 168, 1, 1] (mapped [127, 0, 0, 1]) 4172 [104, 101, 108, 108, 111]) = false := by
+  decide
+
 /-! ## the generated facts (re-extracted from the Go source on every run) tie the model's constants to the code -/
 
 open Vflow.Gen.MirrorFacts in
 /-- what the model transcribes of a mirror worker, written with the model's own constants: buffer of
 `bufExtra + max` octets, `ipHLen = 20`, `SetLen(pLen + 8)`, `udp.SetLen(pLen)`, the three copies at
 `[0:20]`, `[20:28]`, `[28:]`, `Send(packet[0 : 28 + pLen])`, `Put(msg.body[:max])`, and the statement order -/
-def expectedWorker (sport : Nat) : Worker :=
+def expectedWorker (sport : Nat) : Gen.MirrorFacts.Worker :=
   { bufSize := .lin bufExtra 0 1
     srcPort := .lin sport 0 0
     dstPort := "port"
